@@ -10,7 +10,7 @@ ALL = 'all real angle triples (sin/cos pairs with s^2+c^2=1; parity and double-a
 
 
 def build(chk):
-    e = EngB(chk, 'euler', vopts=dict(nvec=60, skip=tuple('w_euler_%s%s' % (n, t) for n in ('m33', 'm44', 'quat_m33', 'quat', 'extract_m33_roundtrip', 'order', 'setorder', 'xyzvec_roundtrip', 'set_xyzvec', 'to_xyzvec', 'xyzlayout_ctor') for t in 'fd') + ('w_m44_seteulerf', 'w_m44_seteulerd')),
+    e = EngB(chk, 'euler', vopts=dict(nvec=60, skip=tuple('w_euler_%s%s' % (n, t) for n in ('m33', 'm44', 'quat_m33', 'quat', 'extract_m33_roundtrip', 'extract33_rt', 'extract44_rt', 'extract33_angles', 'extract44_angles', 'order', 'setorder', 'xyzvec_roundtrip', 'set_xyzvec', 'to_xyzvec', 'xyzlayout_ctor') for t in 'fd') + ('w_m44_seteulerf', 'w_m44_seteulerd')),
              validate=False)
     e.variant('exact', only=['w_euler_orderf', 'w_euler_orderd', 'w_euler_setorderf', 'w_euler_xyzvec_roundtripf', 'w_euler_set_xyzvecf', 'w_euler_to_xyzvecf', 'w_euler_xyzlayout_ctorf'])
     chk.add(e.ob('O1.order_roundtrip', 'c11/euler.c', 'h_order', 'Euler(o).order() == o and setOrder(o) for each of the 24 enumerators (float and double)', bounds='symbolic order constrained to the 24 enumerators', timeout=120))
@@ -34,4 +34,6 @@ def build(chk):
     chk.assumptions += ['sin/cos of each distinct argument term are a pair of reals with s^2+c^2=1; instances of parity and double-angle identities are added mechanically for argument pairs with ratio -1, 2, -2 and listed in the evidence']
     from props import c11b
     c11b.build_obs(chk, ec, ORDERS)
+    c11b.build_extract(chk, ec, ORDERS)
+    c11b.build_extract_lock(chk, ec, ORDERS)
     chk.outside += ['angleMod / makeNear / nearestRotation / simpleXYZRotation (fmod and 2*pi arithmetic to single precision)', 'extract() at and near gimbal lock beyond the thorough-tier round trip', 'extractEulerXYZ/ZYX/extractEuler of ImathMatrixAlgo.h: not yet attempted']
